@@ -620,8 +620,10 @@ def zrank_init(rep, ex: Explorer, cls=ZP):
                         ok = p.outcome[0] == "raise" and p.outcome[1].cls == "ValueError" and bool(saved)
                         rep.check(ok, "ZRANK.refuse", site, f"unsatisfiable combination (extended={ext.value})", "an inconsistent combination of base and facts is refused with an error after the diagnostics were saved",
                                   extracted=f"{p.outcome[0]}{' ' + p.outcome[1].cls if p.outcome[0] == 'raise' else ''}, diagnostics saved={bool(saved)}", required="raise ValueError, diagnostics saved", function=site)
+                    elif pf is None:
+                        rep.violation("ZRANK.refuse", site, f"unsatisfiable combination (extended={ext.value})", "the verdict of the partition test of base ∪ facts is never consulted: an inconsistent combination is not refused",
+                                      extracted="no test of the partition verdict", required="partition is False ⇒ raise", function=site)
                     elif pf is False:
-                        o = p.state.heap.get(1) if False else None
                         setp = [ev for ev, Q in iter_events(p.events) if ev.kind == "attr.set" and ev.attr == "_z_partition"]
                         ok = p.outcome[0] == "return" and len(setp) == 1 and isinstance(setp[0].value, ElemV) and setp[0].value.var == ("part", c.pid)
                         rep.check(ok, "FACT.shape", site, f"partition used (extended={ext.value})", "the ranking uses the partition of the augmented base", extracted=repr(setp[0].value) if setp else "none", required="partition of base ∪ facts", function=site)
@@ -713,3 +715,135 @@ def fact_builder_sibling(rep, ex: Explorer):
     ok = any(isinstance(nd, ast.Call) and isinstance(nd.func, ast.Name) and nd.func.id == "max" and any(k.arg == "default" and isinstance(k.value, ast.Constant) and k.value.value == 0 for k in nd.keywords)
              and "keys" in ast.unparse(nd) for nd in ast.walk(fi.node))
     rep.check(ok, "FACT.shape", fn_label(ex.prog, fi.qualname), "start index", "facts are keyed above the highest key of the base", extracted="max(keys, default=0)" if ok else "other", required="max(existing keys, default=0)", function=fn_label(ex.prog, fi.qualname))
+
+
+# ----------------------------------------------------------------------------------------------
+# C17: c-representation ranking object
+# ----------------------------------------------------------------------------------------------
+IMPACTS = ("impacts",)
+
+
+def crep_rank(rep, ex: Explorer, cls: str):
+    """CREP.rank and KEY.no-positional on <cls>.c_vec2ocf: the rank accumulates impact(c) exactly for the conditionals
+    c with SAT(world ∧ falsification(c)); the impact list is positional (order of the conditionals), so it is indexed
+    by the position of c, never by an arithmetic function of its key."""
+    qual = f"{cls}.c_vec2ocf"
+    site = fn_label(ex.prog, qual)
+
+    def setup(I):
+        bb = make_belief_base(I)
+        conds = I.deref(bb).attrs["conditionals"]
+        s = _obj(I, cls, lambda I: {"conditionals": conds, "_impacts": ElemV(IMPACTS, "coll", "int")})
+        return [s, ElemV(W, "key")], {}
+
+    paths = ex.run(qual, setup, summaries=_summ(), key=f"cvec-{cls}")
+    n = 0
+    for p in paths:
+        if p.outcome[0] != "return":
+            continue
+        loops = [ev for ev, Q in iter_events(p.events) if ev.kind == "loop" and not Q and ev.fam == KEYS_D]
+        if not loops:
+            rep.violation("CREP.rank", site, "conditionals", "the rank sums over the conditionals of the base", extracted="no loop over the conditionals", required="loop", function=site)
+            continue
+        lp = loops[-1]
+        cv = lp.evar
+        for case in lp.cases:
+            d = dict(case.guard)
+            q = None
+            for ev, Q in iter_events(case.events):
+                if ev.kind == "query":
+                    q = ev
+            if q is None:
+                continue
+            n += 1
+            want = canon_items(world_items(W) + [("f", falsification(cv))])
+            rep.check(canon_items(flat(q.frames)) == want, "CREP.rank", f"{site}:{q.node.lineno}", "falsification test", "a conditional counts iff world ∧ A∧¬B is satisfiable, with nothing else in scope",
+                      extracted=show_items(flat(q.frames)), required=show_items(world_items(W) + [("f", falsification(cv))]), function=site)
+            sat = d.get(("sat", q.qid))
+            aug = [ev for ev, Q in iter_events(case.events) if ev.kind == "augassign"]
+            rep.check(bool(aug) == bool(sat), "CREP.rank", site, f"accumulation sat={sat}", "the impact is added exactly when the world falsifies the conditional", extracted=f"{len(aug)} addition(s)", required="1" if sat else "0", function=site)
+            for a in aug:
+                rhs = a.rhs
+                carried_ok = isinstance(a.cur, Sym) and a.cur.label[:1] == ("carried",)
+                okv = a.op == "Add" and isinstance(rhs, ElemV) and isinstance(rhs.var, tuple) and rhs.var[:2] == ("at", IMPACTS)
+                rep.check(okv and carried_ok, "CREP.rank", f"{site}:{a.node.lineno}", "summand", "rank = rank + impact of the falsified conditional", extracted=f"{a.cur!r} {a.op} {rhs!r}"[:200], required="rank += impacts[..]", function=site)
+                if okv:
+                    idx = rhs.var[2][1]
+                    terms = dict(idx[0])
+                    pos_term = ("pos", cv, KEYS_D)
+                    is_pos = terms == {pos_term: 1} and idx[1] == 0
+                    rep.check(is_pos, "KEY.no-positional", f"{site}:{a.node.lineno}", "impact index", "the positional impact vector is indexed by the position of the conditional in the base (not by an arithmetic function of its key)",
+                              extracted=F.show_lin(idx), required="position of c among the conditionals", function=site)
+        rv = p.outcome[1]
+        rep.check(isinstance(rv, Sym) and rv.label[:1] == ("acc",), "CREP.rank", site, "result", "the accumulated sum is returned", extracted=repr(rv), required="the accumulator", function=site)
+    rep.floor(f"CREP.rank cases of {cls.rsplit('.', 1)[1]}", n, 2)
+
+
+def crep_init(rep, ex: Explorer, cls=CR):
+    """C17.D3: CHECK.three-way at the constructor, every η minimised, impact vector read per conditional key in the
+    order of the conditionals (the order c_vec2ocf indexes by position)."""
+    qual = f"{cls}.__init__"
+    site = fn_label(ex.prog, qual)
+
+    def cinf_new(I, fi, args, kwargs, node):
+        I.log("cinf.new", node, args=tuple(args))
+        base = I.alloc(HList([("sym", "BASECSP")]))
+        return I.alloc(HObj("inference.c_inference.CInference", {"base_csp": base, "epistemic_state": args[0] if args else Const(None)}))
+
+    def pre(I, fi, args, kwargs, node):
+        I.log("cinf.preprocess", node, args=tuple(args[1:]))
+        return Const(None)
+
+    summ = dict(wrappers.SUMMARIES)
+    summ["inference.c_inference.CInference"] = cinf_new
+    summ["inference.inference.Inference.preprocess_belief_base"] = pre
+
+    def setup(I):
+        bb = make_belief_base(I)
+        return [I.alloc(HObj(cls, {})), bb, ElemV(SIG, "coll", "str")], {}
+
+    paths = ex.run(qual, setup, summaries=summ, key="crepinit")
+    n = 0
+    for p in paths:
+        chk = None
+        for k, v in p.decisions:
+            if k[0] == "check":
+                chk = v
+        models = [ev for ev, Q in iter_events(p.events) if ev.kind == "solver.model"]
+        n += 1
+        if chk == "sat":
+            rep.check(len(models) >= 1 and p.outcome[0] == "return", "CHECK.three-way", site, "sat", "a model is read after the check answered sat", extracted=f"{len(models)} read(s), {p.outcome[0]}", required="model read", function=site)
+            # objectives: every η_key minimised
+            objs = [ev for ev, Q in iter_events(p.events) if ev.kind == "solver.objective"]
+            okm = False
+            for ev, Q in iter_events(p.events):
+                if ev.kind == "solver.objective" and Q:
+                    lp = Q[-1][0]
+                    t = ev.term
+                    if lp.fam == KEYS_D and ev.how == "minimize" and isinstance(t, LinV) and len(t.lin[0]) == 1:
+                        nm = t.lin[0][0][0]
+                        okm = nm[0] == "isym" and nm[1][0] == "name" and nm[1][1][0] == "eta_" and nm[1][1][1] == ("elem", lp.evar, "key")
+            rep.check(okm, "CREP.rank", site, "objectives", "every impact variable η_key of the base is minimised (Pareto)", extracted="η named by key of every conditional" if okm else "other", required="minimize(eta_<key>) for every conditional", function=site)
+            # impacts: list over the conditionals in order, value of eta_<key>
+            for ev, Q in iter_events(p.events):
+                if ev.kind == "attr.set" and ev.attr == "_impacts":
+                    vw = view(p.state, ev.value)
+                    ok = False
+                    if isinstance(vw, tuple) and vw[0] == "list" and len(vw[1]) == 1 and vw[1][0][0] == "each":
+                        _, b, fam, g, val = vw[1][0]
+                        ok = fam == KEYS_D and g == PTRUE and ("eta_", ("elem", b, "key")) in _flatten(desc(val) if not isinstance(val, tuple) else val)
+                    rep.check(ok, "KEY.no-positional", f"{site}:{ev.node.lineno}", "impact vector", "the impact vector lists the value of η_<key> for every conditional, in the order of the conditionals",
+                              extracted=repr(vw)[:200], required="[value(eta_<key>) for key in conditionals]", function=site)
+        elif chk in ("unsat", "unknown"):
+            rep.check(not models and p.outcome[0] == "raise", "CHECK.three-way", site, chk, "no model is read unless the check answered sat; the constructor fails instead", extracted=f"{len(models)} read(s), {p.outcome[0]}", required="raise, no model()", function=site)
+    rep.floor("RandomMinCRepPreOCF construction paths", n, 3)
+
+
+def _flatten(x, acc=None):
+    if acc is None:
+        acc = set()
+    if isinstance(x, tuple):
+        acc.add(x)
+        for i in x:
+            _flatten(i, acc)
+    return acc
